@@ -528,6 +528,57 @@ run_s7b(void *arg)
 	vh_fini();
 }
 
+// ---- S7c: device between raw PAIR1 sockets (synchronous completions) ---------------
+static void
+run_s7c(void *arg)
+{
+	(void) arg;
+	vh_init(0);
+	memset(&S7, 0, sizeof(S7));
+	nng_socket d1, d2, e1, e2;
+	VH_OK(nng_pair1_open_raw(&d1));
+	VH_OK(nng_pair1_open_raw(&d2));
+	VH_OK(nng_pair1_open(&e1));
+	VH_OK(nng_pair1_open(&e2));
+	VH_OK(nng_listen(d1, "inproc://s7c-1", NULL, 0));
+	VH_OK(nng_listen(d2, "inproc://s7c-2", NULL, 0));
+	VH_OK(nng_dial(e1, "inproc://s7c-1", NULL, 0));
+	VH_OK(nng_dial(e2, "inproc://s7c-2", NULL, 0));
+	VH_OK(nng_aio_alloc(&S7.aio, op_cb, &S7));
+	vs_settle();
+	S7.timeout   = -1;
+	S7.submitted = 1;
+	S7.t_start   = vs_now();
+	nng_device_aio(S7.aio, d1, d2);
+	vs_settle();
+	pthread_t tc;
+	(void) vh_send_nb(e1, "m1", 2);
+	(void) vh_send_nb(e2, "m2", 2);
+	vs_window(1);
+	pthread_create(&tc, NULL, s7_canceller, NULL);
+	pthread_join(tc, NULL);
+	// bounded wait (the dialers of e1/e2 keep redialing, so virtual time
+	// never stops by itself)
+	for (int i = 0; i < 40 && S7.ncb == 0; i++)
+		vs_sleep(50);
+	vs_window(0);
+	if (S7.ncb == 0)
+		vs_fail("C02:never-completes:S7c-pair1-device",
+		    "device aio still pending 2 s after nng_aio_cancel returned");
+	vs_settle();
+	if (S7.ncb != 1)
+		vs_fail("C02:callback-count", "device aio: %d callbacks", S7.ncb);
+	static const int ok[] = { NNG_ECANCELED, NNG_ECLOSED };
+	allowed(&S7, "device", ok, 2);
+	vs_outcome("res=%d", S7.result);
+	nng_aio_free(S7.aio);
+	nng_socket_close(e1);
+	nng_socket_close(e2);
+	nng_socket_close(d1);
+	nng_socket_close(d2);
+	vh_fini();
+}
+
 // ---- S8: stream recv over a socketpair || cancel || peer write / close ---------
 static op S8;
 static void *
@@ -668,7 +719,8 @@ main(int argc, char **argv)
 	explore("S4-ctxrecv-reply", run_s4, (void *) 0, p, t, sw, tot);
 	explore("S4-ctxrecv-reply-cancel", run_s4, (void *) 1, p, t, sw, tot);
 	explore("S7-device-cancel", run_s7, NULL, 1, 1, 1, 1); // teardown has ~300 points: 1 deviation
-	explore("S7b-onepath-device-cancel", run_s7b, NULL, 1, 1, 1, 1); // teardown has ~300 points: 1 deviation
+	explore("S7b-onepath-device-cancel", run_s7b, NULL, 1, 1, 1, 1);
+	explore("S7c-pair1-device-cancel", run_s7c, NULL, 1, 1, 1, 1); // teardown has ~300 points: 1 deviation
 	explore("S8-stream-write-cancel", run_s8, (void *) 0, p, t, sw, tot);
 	explore("S8-stream-close-cancel", run_s8, (void *) 1, p, t, sw, tot);
 	explore("S8-stream-idle-cancel", run_s8, (void *) 2, p, t, sw, tot);
